@@ -103,3 +103,26 @@ int last_null_good(const char *dest, unsigned long dmax, char c, const char **la
     *lastp = l;
     return l ? 0 : 409;
 }
+/* window rule: the answer of a length-less libc searcher is filtered by the declared length */
+int win_good(const char *dest, unsigned long dmax, int ch, char **resultp) {
+    *resultp = strchr(dest, ch);
+    if (!*resultp) return 409;
+    if ((long)(*resultp - dest) >= (long)dmax) { *resultp = 0; return 409; }
+    return 0;
+}
+int win_good_accept(const char *dest, unsigned long dmax, int ch, char **resultp) {
+    char *r = strchr(dest, ch);
+    *resultp = 0;
+    if (r && dmax > (unsigned long)(r - dest)) { *resultp = r; return 0; }
+    return 409;
+}
+int win_off_by_one(const char *dest, unsigned long dmax, int ch, char **resultp) {
+    *resultp = strchr(dest, ch);
+    if (!*resultp) return 409;
+    if ((long)(*resultp - dest) > (long)dmax) { *resultp = 0; return 409; }
+    return 0;
+}
+int win_unchecked(const char *dest, unsigned long dmax, int ch, char **resultp) {
+    *resultp = strrchr(dest, ch);
+    return *resultp ? 0 : 409;
+}
